@@ -380,7 +380,7 @@ class Numpy:
                 kind = "bool"
             elif ls and all((isinstance(x, int) and not isinstance(x, bool)) or (isinstance(x, SV) and x.is_int) for x in ls):
                 kind = "int"
-            elif all(isinstance(x, (int, float, SV)) or x is None for x in ls):
+            elif all(isinstance(x, (int, float, SV, __import__("fractions").Fraction)) or x is None for x in ls):
                 kind = "float"
             else:
                 kind = "object"
@@ -767,6 +767,22 @@ class Numpy:
         if isinstance(idx, LibObj) and idx.kind == "ix":
             return self.get_ix(I, a, idx, node)
         if isinstance(idx, NDArr) and idx.kind == "bool":
+            # selection by a mask whose entries are all concrete (e.g. a fixed missing-value pattern)
+            if idx.ndim == 1 and a.ndim == 1 and isinstance(idx.shape[0], int) and isinstance(a.shape[0], int) and idx.shape[0] == a.shape[0]:
+                keep = []
+                for j in range(idx.shape[0]):
+                    t = I.truth_sym(idx.get(z3.IntVal(j)))
+                    if not isinstance(t, bool):
+                        # decided by the path condition (e.g. a placement pattern that depends on index arithmetic)
+                        if I.ctx.entails(t):
+                            t = True
+                        elif I.ctx.entails(z3.Not(t)):
+                            t = False
+                        else:
+                            raise Unsupported("boolean-mask selection with a symbolic mask (data dependent shape)")
+                    if t:
+                        keep.append(j)
+                return self.getitem(I, a, (keep,), node) if keep else NDArr.fresh(lambda i: 0, (0,), a.kind)
             raise Unsupported("boolean-mask selection (data dependent shape)")
         parts = self.split_index(I, a, idx)
         fancy = [(k, idxseq(I, p, node)) for k, p in enumerate(parts)
@@ -995,7 +1011,14 @@ class Numpy:
         r = self.basic_index_keep(I, a, parts, node)
         return r
 
-    def basic_index_keep(self, I, a, parts, node):
+    def row_view(self, I, a, i):
+        """a[i] as a view WITHOUT a bounds obligation (used by lazily evaluated element functions; the bound is
+        checked where the program actually reads)."""
+        parts = [i] + [LibObj("slice", start=None, stop=None, step=None)] * (a.ndim - 1)
+        r = self.basic_index_keep(I, a, parts, None, check=False)
+        return r if r.shape else r.get()
+
+    def basic_index_keep(self, I, a, parts, node, check=True):
         """basic_index that returns a 0-d view instead of a scalar."""
         axes = list(a.axes)
         new_shape = []
@@ -1011,8 +1034,9 @@ class Numpy:
             if isinstance(p, (int, SV)):
                 t = zint(p)
                 nt = zint(n)
-                I.require("IndexError", z3.And(t >= -nt, t < nt), node)
-                remap[va] = ("fix", norm_index(I, t, nt))
+                if check:
+                    I.require("IndexError", z3.And(t >= -nt, t < nt), node)
+                remap[va] = ("fix", norm_index(I, t, nt) if check else z3.simplify(z3.If(t < 0, t + nt, t)))
             else:
                 start, step, ln = self.slice_bounds(I, p, n, node)
                 remap[va] = ("ax", len(new_shape), start, step)
@@ -1086,7 +1110,28 @@ class Numpy:
         else:
             if isinstance(v, tuple_iter):
                 v = list(v.items)
-            out = self.coerce(I, v)
+            if isinstance(v, SSeq):
+                v = [v] if False else v
+            seqs = None
+            if isinstance(v, (list, tuple)) and v and all(isinstance(x, SSeq) for x in v):
+                seqs = list(v)           # rows of symbolic length: shape (len(v), n)
+                ln = seqs[0].length
+                for q in seqs[1:]:
+                    if not I.ctx.entails(to_z3(q.length) == to_z3(ln)):
+                        raise Unsupported("np.array of sequences with different symbolic lengths")
+                out = NDArr.fresh(lambda r, c: self._pick(seqs, r).getter(SV(zint(c))) if isinstance(r, int) else self._pick_sym(I, seqs, r, c),
+                                  (len(seqs), ln), self.kind_of_dtype(dtype) if dtype is not None else "float")
+            elif isinstance(v, SSeq):
+                # sequence of symbolic length whose elements are scalars or tuples of fixed length
+                probe = v.getter(SV(z3.Int("k!probe_arr")))
+                if isinstance(probe, (tuple, list)):
+                    width = len(probe)
+                    out = NDArr.fresh(lambda r, c: self._elem_of(I, v.getter(SV(zint(r))), c, width), (v.length, width),
+                                      self.kind_of_dtype(dtype) if dtype is not None else "float")
+                else:
+                    out = NDArr.fresh(lambda r: v.getter(SV(zint(r))), (v.length,), self.kind_of_dtype(dtype) if dtype is not None else "float")
+            else:
+                out = self.coerce(I, v)
             if out is None:
                 raise Unsupported(f"np.array of {type(v).__name__}")
         if dtype is not None and self.kind_of_dtype(dtype) != out.kind:
@@ -1094,6 +1139,27 @@ class Numpy:
         if k.get("ndmin"):
             raise Unsupported("np.array ndmin")
         return out
+
+    def _pick(self, seqs, r):
+        return seqs[r]
+
+    def _pick_sym(self, I, seqs, r, c):
+        r = z3.simplify(zint(r))
+        if z3.is_int_value(r):
+            return seqs[r.as_long()].getter(SV(zint(c)))
+        acc = seqs[-1].getter(SV(zint(c)))
+        for j in range(len(seqs) - 2, -1, -1):
+            acc = elem_ite(r == j, norm_elem(seqs[j].getter(SV(zint(c))), "float"), norm_elem(acc, "float"))
+        return acc
+
+    def _elem_of(self, I, row, c, width):
+        c = z3.simplify(zint(c))
+        if z3.is_int_value(c):
+            return row[c.as_long()]
+        acc = norm_elem(row[-1], "float")
+        for j in range(width - 2, -1, -1):
+            acc = elem_ite(c == j, norm_elem(row[j], "float"), acc)
+        return acc
 
     def np_asarray(self, I, a, k, n):
         if isinstance(a[0], NDArr) and not k.get("dtype"):
@@ -1542,6 +1608,22 @@ class Numpy:
         return SV(r)
 
     def np_nonzero(self, I, a, k, n):
+        arr = self.coerce(I, a[0])
+        if arr.ndim == 1 and isinstance(arr.shape[0], int):
+            keep = []
+            for j in range(arr.shape[0]):
+                e = arr.get(z3.IntVal(j))
+                t = I.truth_sym(e if arr.kind == "bool" else I.compare("!=", e, 0, n))
+                if not isinstance(t, bool):
+                    if I.ctx.entails(t):
+                        t = True
+                    elif I.ctx.entails(z3.Not(t)):
+                        t = False
+                    else:
+                        raise Unsupported("np.nonzero of a symbolic mask (data dependent shape)")
+                if t:
+                    keep.append(j)
+            return (self.from_nested(I, keep, "int", (len(keep),)),)
         raise Unsupported("np.nonzero / np.where(cond) (data dependent shape)")
 
     def np_array_equal(self, I, a, k, n):
